@@ -30,6 +30,11 @@ enum Wac {
 async fn main() -> Result<()> {
     pretty_env_logger::init();
 
+    #[cfg(wac_verif)]
+    if std::env::var_os("WAC_VERIF_TRACE").is_some() {
+        wac_graph::verif::start();
+    }
+
     if let Err(e) = match Wac::parse() {
         Wac::Parse(cmd) => cmd.exec().await,
         Wac::Resolve(cmd) => cmd.exec().await,
@@ -43,8 +48,21 @@ async fn main() -> Result<()> {
                 text.style(Style::new().red().bold())
             })
         );
+        #[cfg(wac_verif)]
+        verif_flush();
         std::process::exit(1);
     }
 
+    #[cfg(wac_verif)]
+    verif_flush();
     Ok(())
+}
+
+/// Verification hook (only with `--cfg wac_verif`): writes the graph events recorded during
+/// the command to the file named by `WAC_VERIF_TRACE`.
+#[cfg(wac_verif)]
+fn verif_flush() {
+    if let Some(path) = std::env::var_os("WAC_VERIF_TRACE") {
+        let _ = std::fs::write(path, wac_graph::verif::take().join("\n"));
+    }
 }
